@@ -420,48 +420,53 @@ def run_invoke(ctx, spec, canary, os_classes):
 
 
 def run_strace(ctx, canary, moddir):
+    """syscall-level cross-check, independent of Python-level hooks: each script runs in its own secure CLI child under
+    strace -f; no syscall may name the canary tree and no second execve may happen"""
     work = os.getcwd()
-    script = os.path.join(work, "attempts.ckl")
-    lines = []
-    for att in attempts(canary):
-        lines.append("do %s catch all NULL end;" % att)
-    for fname, form in FLAG_FORMS[:12]:
-        lines.append("do %s catch all NULL end;" % form.replace("{ATTEMPT}", "do %s catch all NULL end" % attempts(canary)[0]))
-    lines.append("println('done');")
-    with open(script, "w") as f:
-        f.write("\n".join(lines))
-    log = os.path.join(work, "strace.log")
+    scripts = []
+    body = "\n".join("do %s catch all NULL end;" % att for att in attempts(canary)) + "\nprintln('done');\n"
+    scripts.append(("attempts", body))
+    for fname, form in FLAG_FORMS:
+        src = form.replace("{ATTEMPT_DQ}", "{ATTEMPT}").replace("{ATTEMPT}", "do %s catch all NULL end" % attempts(canary)[0])
+        scripts.append((fname, "do %s catch all NULL end;\nprintln('done');\n" % src))
     before = snapshot(canary)
-    env = dict(os.environ)
-    p = subprocess.run(["strace", "-f", "-e", "trace=file,process", "-o", log, sys.executable, "-B", "-m", "ckl.run", "--secure", "-m", moddir, script],
-                       capture_output=True, text=True, timeout=300, env=env)
-    ctx.count("strace_runs")
-    ctx.case(("strace", len(lines)))
-    ctx.case(("strace-script", script))
-    if not os.path.exists(log):
-        ctx.note("strace produced no log: %s" % p.stderr[-300:])
-        ctx.count("strace_unavailable")
-        return
     marker = os.path.realpath(canary)
-    execs = 0
-    nlines = 0
-    with open(log, errors="replace") as f:
-        for line in f:
-            nlines += 1
-            if "execve(" in line:
-                execs += 1
-                if execs > 1:
-                    ctx.violation("C09:strace:execve", "secure CLI child executed a program: %s" % line.strip()[:300], {})
-            if marker in line and "ENOENT" not in line.split("=")[-1] + "":
-                ctx.violation("C09:strace:canary-syscall", "secure CLI child touched the canary tree: %s" % line.strip()[:300], {})
-            elif marker in line:
-                ctx.violation("C09:strace:canary-syscall", "secure CLI child probed the canary tree: %s" % line.strip()[:300], {})
-    ctx.count("strace_syscalls", nlines)
-    if "done" not in p.stdout:
-        ctx.note("secure CLI child did not finish: %s %s" % (p.stdout[-200:], p.stderr[-300:]))
-        ctx.count("strace_child_incomplete")
+    for i, (name, text) in enumerate(scripts):
+        script = os.path.join(work, "s%02d.ckl" % i)
+        with open(script, "w") as f:
+            f.write(text)
+        log = os.path.join(work, "strace%02d.log" % i)
+        p = subprocess.run(["strace", "-f", "-e", "trace=file,process", "-o", log, sys.executable, "-B", "-m", "ckl.run", "--secure", "-m", moddir, script],
+                           capture_output=True, text=True, timeout=300, env=dict(os.environ))
+        ctx.count("strace_runs")
+        ctx.case(("strace", name, text))
+        if not os.path.exists(log):
+            ctx.note("strace produced no log: %s" % p.stderr[-300:])
+            ctx.count("strace_unavailable")
+            return
+        execs = 0
+        nlines = 0
+        with open(log, errors="replace") as f:
+            for line in f:
+                nlines += 1
+                if "execve(" in line:
+                    execs += 1
+                    if execs > 1:
+                        ctx.violation("C09:strace:execve:" + name, "secure CLI child executed a program: %s" % line.strip()[:300], {"script": text})
+                if marker in line:
+                    ctx.violation("C09:strace:canary-syscall:" + name, "secure CLI child named the canary tree in a syscall: %s" % line.strip()[:300], {"script": text})
+        ctx.count("strace_syscalls", nlines)
+        # a script that is rejected as a whole (assignment to a system variable is a syntax error) never runs: fine
+        if "done" in p.stdout:
+            ctx.count("strace_scripts_completed")
+        elif "Cannot assign to system variable" in p.stdout or "Line" in p.stdout:
+            ctx.count("strace_scripts_rejected")
+        else:
+            ctx.note("secure CLI child neither finished nor was rejected: %s %s" % (p.stdout[-200:], p.stderr[-300:]))
+            ctx.count("strace_child_incomplete")
     if snapshot(canary) != before:
-        ctx.violation("C09:strace:canary-changed", "canary tree changed during the secure CLI run", {})
+        ctx.violation("C09:strace:canary-changed", "canary tree changed during the secure CLI runs", {})
+    ctx.sample({"strace_scripts": len(scripts)})
 
 
 def run_shard(spec, ctx):
@@ -515,6 +520,6 @@ def finalize(merged, tier):
         if c.get(k, 0) == 0:
             reasons.append("monitor counter %s is zero" % k)
     if tier == "thorough":
-        if c.get("strace_runs", 0) == 0 or c.get("strace_unavailable", 0) or c.get("strace_child_incomplete", 0):
+        if c.get("strace_runs", 0) == 0 or c.get("strace_unavailable", 0) or c.get("strace_child_incomplete", 0) or c.get("strace_scripts_completed", 0) < 10:
             reasons.append("strace cross-check did not complete")
     return extra, reasons
